@@ -84,9 +84,10 @@ class C19(Plugin):
             if rng.random() < 0.6:
                 src = gen_markup.document(rng)
                 frag = rng.random() < 0.4
-                p = html5lib.HTMLParser(tree=html5lib.getTreeBuilder("dom"))
+                ns = rng.random() < 0.75
+                p = html5lib.HTMLParser(tree=html5lib.getTreeBuilder("dom"), namespaceHTMLElements=ns)
                 doc = p.parseFragment(src) if frag else p.parse(src)
-                yield {"k": 1, "src": src, "frag": frag, "forest": trees.dom_forest(doc)}
+                yield {"k": 1, "src": src, "frag": frag, "forest": trees.dom_forest(doc), "ns": ns}
             else:
                 from props.c17 import PLUGIN as c17
                 c = next(iter(c17.cases(rng, 1, tier)))
@@ -117,7 +118,7 @@ class C19(Plugin):
                 return [2]
             return [1, [e[:5] if e[0] == 4 else (e[:3] if e[0] == 5 else e) for e in ev]]
         import html5lib
-        p = html5lib.HTMLParser(tree=html5lib.getTreeBuilder("dom"))
+        p = html5lib.HTMLParser(tree=html5lib.getTreeBuilder("dom"), namespaceHTMLElements=case.get("ns", True))
         doc = p.parseFragment(case["src"]) if case["frag"] else p.parse(case["src"])
         ev = self._events(html5lib.getTreeWalker("dom")(doc))
         if ev is None:
